@@ -93,3 +93,85 @@ def marked_update(i, malformed=False):
 
 def u16(v):
     return struct.pack('!H', v)
+
+
+# ------------------------------------------------------------------------------------------------
+# Cooperative peer (DESIGN.md 4.2): a correct RFC speaker used by C02, C13, C10, C16-C19
+# ------------------------------------------------------------------------------------------------
+def live_connectors(sim):
+    out = []
+    for c in sim.reactor.connectors:
+        tr = c.transport
+        if c.state == 'connected' and tr is not None and tr.connected and not tr.disconnecting:
+            out.append(c)
+    return out
+
+
+def cooperate(sim, deadline, peer_hold=None, close_inherited=True):
+    """Behave as a correct peer until the agent reports ESTABLISHED or virtual time passes
+    `deadline`.  Returns the virtual time at which ESTABLISHED was reached, or None.
+    Inherited live connections that are not in a clean handshake position are closed first."""
+    r = sim.reactor
+    r.settle(fire_due=True)
+    if sim.state == 'ESTABLISHED':
+        return sim.now
+    if close_inherited:
+        for c in live_connectors(sim):
+            r.peer_close(c, clean=True)
+            r.settle(fire_due=True)
+    progress = {}     # cid -> 'open-sent' | 'ka-sent'
+    guard = 0
+    while sim.now <= deadline and guard < 2000:
+        guard += 1
+        if sim.state == 'ESTABLISHED':
+            return sim.now
+        att = r.attempts()
+        if att:
+            r.accept(att[-1])
+            r.settle(fire_due=True)
+            continue
+        live = live_connectors(sim)
+        acted = False
+        for c in live:
+            st = progress.get(c.id)
+            agent_open = any(b[18:19] == b'\x01' for _, b in c.transport.written if len(b) >= 19)
+            if st is None and agent_open:
+                r.peer_send(c, peer_open(sim, hold=peer_hold))
+                r.settle(fire_due=True)
+                progress[c.id] = 'open-sent'
+                acted = True
+            elif st == 'open-sent' and sim.state in ('OPENCONFIRM',):
+                r.peer_send(c, rc.keepalive())
+                r.settle(fire_due=True)
+                progress[c.id] = 'ka-sent'
+                acted = True
+        if acted:
+            continue
+        t = r.next_time()
+        if t is None or t > deadline:
+            break
+        r.advance_to(t)
+        r.settle(fire_due=True)
+    return sim.now if sim.state == 'ESTABLISHED' else None
+
+
+def stay_up(sim, hold, periods=3):
+    """Peer sends KEEPALIVE every hold/3 for `periods` hold times; returns True if the agent stays
+    ESTABLISHED throughout (hold 0: just lets 3 x 240 s pass in silence)."""
+    r = sim.reactor
+    if not hold:
+        r.advance(3 * 240.0)
+        r.settle(fire_due=True)
+        return sim.state == 'ESTABLISHED'
+    step = hold / 3.0
+    for _ in range(3 * periods):
+        r.advance(step)
+        r.settle(fire_due=True)
+        if sim.state != 'ESTABLISHED':
+            return False
+        live = live_connectors(sim)
+        if not live:
+            return False
+        r.peer_send(live[-1], rc.keepalive())
+        r.settle(fire_due=True)
+    return sim.state == 'ESTABLISHED'
